@@ -525,3 +525,54 @@ def rf154(run):
                           (what, 'rejected' if rejected else 'accepted', ' (an early `continue` skips the checks)' if skipped else '',
                            'the function returns without the values its callers read' if want else 'well-formed code is refused'), line=outer[0]['l'])
     return n
+
+
+# ---------------------------------------------------------------------------------------------
+# RF169: expected operand modes of the instructions of variable length
+# ---------------------------------------------------------------------------------------------
+
+def rf169(run):
+    from lib import printexec as PE
+    rule = 'RF169'
+    run.rule(rule, 'MIR_finish_func: the statement that computes `expected_mode`, executed abstractly: for `switch` it is INT for operand 0 and '
+                   'LABEL for every further operand; for `ret` it comes from the result types; for everything else from MIR_insn_op_mode — '
+                   'which, for the operands of `switch` and the arguments of calls, returns the mode of the operand *itself* (nothing to '
+                   'compare with).  Sending `switch` down the generic path accepts `switch i, L, 5` and `switch i, r, 1.0`')
+    tu = run.tu('mir')
+    f = tu.func('MIR_finish_func')
+    run.functions_analysed.add(('mir', f.name))
+    loops = [l for l in f.walk() if l['k'] == 'ForStmt' and l['c'][1] is not None and 'actual_nops' in F.src(l['c'][1])]
+    if not loops:
+        raise F.AnalysisBroken('MIR_finish_func: the loop over the operands was not found')
+    body = loops[0]['c'][3]
+    stmts = F.kids(body) if body['k'] == 'CompoundStmt' else [body]
+    sel = [s_ for s_ in stmts if s_['k'] == 'IfStmt' and
+           any(y['k'] == 'BinaryOperator' and y['op'] == '=' and F.src(F.strip(y['c'][0])) == 'expected_mode' for y in F.walk(s_))]
+    if not sel:
+        raise F.AnalysisBroken('MIR_finish_func: the computation of expected_mode was not found')
+    codes = dict(tu.enum('MIR_insn_code_t'))
+    modes = dict(tu.enum('MIR_op_mode_t'))
+    SELF = -77
+    n = 0
+    for nm, i, want in (('MIR_SWITCH', 0, 'MIR_OP_INT'), ('MIR_SWITCH', 1, 'MIR_OP_LABEL'), ('MIR_SWITCH', 2, 'MIR_OP_LABEL'),
+                        ('MIR_SWITCH', 5, 'MIR_OP_LABEL'), ('MIR_ADD', 1, SELF), ('MIR_JMP', 0, SELF)):
+        ex = PE.PrintExec(tu, {}, {'MIR_insn_op_mode': lambda a, e, x: SELF, 'type2mode': lambda a, e, x: -78,
+                                   'MIR_addr_code_p': lambda a, e, x: 0}, {})
+        env = {'code': codes[nm], 'insn->code': codes[nm], 'i': i}
+        try:
+            ex.run(sel[0], env)
+        except F.AnalysisBroken as e_:
+            raise F.AnalysisBroken('MIR_finish_func: expected_mode not evaluable for %s operand %d: %s' % (nm, i, e_))
+        got = env.get('expected_mode')
+        wv = want if want == SELF else modes[want]
+        ok = got == wv
+        n += 1
+        run.ob(rule, (nm, i), ok, {'opcode': nm, 'operand': i, 'expected_mode': 'from MIR_insn_op_mode' if got == SELF else
+                                   next((k for k, v in modes.items() if v == got), got), 'wanted': 'from MIR_insn_op_mode' if want == SELF else want})
+        if not ok:
+            run.violation(rule, f, 'expected mode of %s operand %d' % (nm, i), 'MIR_finish_func takes the expected mode of operand %d of %s %s, it '
+                          'should be %s: MIR_insn_op_mode answers with the mode the operand already has for the labels of a switch, so an '
+                          'immediate or a register in a label position is accepted' %
+                          (i, nm[4:].lower(), 'from MIR_insn_op_mode' if got == SELF else 'as %s' % got, want if want != SELF else 'the table entry'),
+                          line=sel[0]['l'])
+    return n
